@@ -297,7 +297,7 @@ Trim(S) == {<<x>> : x \in S} \cup
            (IF Cardinality(S) >= 2
             THEN LET a == CHOOSE x \in S : \A y \in S : x <= y
                      b == CHOOSE x \in S \ {a} : \A y \in S \ {a} : x <= y
-                 IN {<<b, a>>, <<a, a>>}
+                 IN {<<b, a>>, <<a, a>>, <<a, a, b>>}
             ELSE {})
 ValSeqs(S, n) == IF ArgLevel >= 2 THEN SeqsUpTo(S, n) ELSE Trim(S)
 Perms(n) == {p \in [1..n -> 1..n] : Range(p) = 1..n}
@@ -315,7 +315,7 @@ Events(h) ==
     LET ob == h[o]  nr == Len(ob.rows)  np == Len(ob.pats) IN
       {Ev("getitem", o, 0, "", v) : v \in ValSeqs(1..nr, 2)}
       \cup {Ev("subset", o, 0, by, v) : by \in {"index", "subj", "grp"}, v \in ValSeqs(Range(RDesc(ob, "index")) \cup Range(ob.rows) \cup {1, 2}, 2)}
-      \cup {Ev("subsample", o, 0, by, v) : by \in {"index", "subj", "grp"}, v \in ValSeqs(Range(RDesc(ob, "index")) \cup Range(ob.rows) \cup {1, 2}, 2)}
+      \cup {Ev("subsample", o, 0, by, v) : by \in {"index", "subj", "grp"}, v \in ValSeqs(Range(RDesc(ob, "index")) \cup Range(ob.rows) \cup {1, 2}, 3)}
       \cup {Ev("subset_pattern", o, 0, by, v) : by \in {"index", "cond", "cat"}, v \in ValSeqs(Range(ob.pidx) \cup Range(ob.pats) \cup {1, 2}, 2)}
       \cup {Ev("subsample_pattern", o, 0, by, v) : by \in {"index", "cond", "cat"}, v \in ValSeqs(Range(ob.pidx) \cup Range(ob.pats) \cup {1, 2}, 3)}
       \cup UNION {{Ev("boot_rdm", o, 0, by, d) : d \in Draws(Len(Groups(RDesc(ob, by))))} : by \in {"index", "subj", "grp"}}
